@@ -189,6 +189,15 @@ pub fn run(ctx: &Ctx) -> Report {
         }
     }
     total.merge(stl);
+    // interaction triples: three leaf kinds (every kind of primary, options too) under every operator
+    // skeleton, each in a layout variant derived from the tree
+    let mut kinds = crate::combo::all_kinds();
+    kinds.push(E::G(Glob::Depth));
+    kinds.push(E::G(Glob::Threads(4)));
+    let choices_of = |t: &E| -> Vec<u16> { (0..48u32).map(|i| (stable_hash(&(t, i)) & 0xffff) as u16).collect() };
+    let guard = |t: &E| if matches!(t.leaves().first(), Some(E::G(_))) { E::and(E::T(Tst::Name("first".into())), t.clone()) } else { t.clone() };
+    let tr = crate::combo::run_triples(ctx.seed, &kinds, ctx.tier.pick(64, 4), |t| { let t = guard(t); judge(&t, &choices_of(&t)) }, |t| { let t = guard(t); case_json(&t, &choices_of(&t)) });
+    total.merge(tr);
     let cases = ctx.tier.pick(400_000u32, 4_000_000u32);
     let shards = 16;
     let rnd = run_shards(shards, |shard| {
